@@ -8,7 +8,9 @@
 (* per left character, with and without the largest letter doubling as     *)
 (* right boundary character; every word of length 1..MaxLen; with and      *)
 (* without left boundary processing.  The behaviour is then the run of the *)
-(* reference machine (TeX's main loop), one label per step.                *)
+(* reference machine (TeX's main loop); one step of the model leads from   *)
+(* one instruction lookup (main_lig_loop) to the next, through the labels  *)
+(* in between (TeXStep is one label).                                      *)
 (*                                                                         *)
 (* Checked:                                                                *)
 (*  Spelling        every state of TeX's loop spells the input word        *)
@@ -26,66 +28,42 @@
 (* <= MaxRules (only pairs with an instruction have children), at most two *)
 (* children per node: < 2^(MaxRules+1) instruction lookups.  A word of n   *)
 (* characters starts at most n+1 top-level pairs (left boundary, n-1       *)
-(* inner, right boundary) and every lookup is followed by at most four     *)
-(* other labels.  A run longer than Bound therefore never terminates.      *)
+(* inner, right boundary), plus one for slack.  A run with more than Bound *)
+(* lookups therefore never terminates.                                     *)
 (***************************************************************************)
-EXTENDS LigKernImpl, TLC
+EXTENDS LigKernSpace, TLC
 
-CONSTANTS Letters, MaxRules, MaxLen,
-          Ops,            \* op bytes the programs may use (ValidOps + KernOp = all)
+CONSTANTS MaxLen,
           StopAtHit,      \* TRUE: a run that meets a looping pair is cut there (except pair configurations)
           CheckFlags      \* TRUE: RefinesCursor also compares the two boundary flags of ligatures
 
 VARIABLES prog, word, nl, lp, st, n, hit
 vars == <<prog, word, nl, lp, st, n, hit>>
 
-Bound == 5 * (2 ^ (MaxRules + 1)) * (MaxLen + 2)
+Bound == (2 ^ (MaxRules + 1)) * (MaxLen + 2)
+
+\* from one label to the next instruction lookup (or the end of the word)
+RECURSIVE ToLookup(_, _)
+ToLookup(P, s) == IF s.pc \in {"main_lig_loop", "done"} THEN s ELSE ToLookup(P, TeXStep(P, s))
 
 -----------------------------------------------------------------------------
-(* the space of programs *)
-MaxLetter == CHOOSE x \in Letters : \A y \in Letters : y <= x
-MinLetter == CHOOSE x \in Letters : \A y \in Letters : x <= y
-Pairs == (Letters \cup {NonChar}) \X Letters
-Acts  == (IF KernOp \in Ops THEN {<<KernOp, 0>>} ELSE {}) \cup ((ValidOps \cap Ops) \X Letters)
-
-RECURSIVE SortInts(_)
-SortInts(S) == IF S = {} THEN <<>>
-               ELSE LET m == CHOOSE x \in S : \A y \in S : x <= y IN <<m>> \o SortInts(S \ {m})
-
-LeftKey(x) == IF x = NonChar THEN -1 ELSE x      \* the boundary's chain comes first
-
-\* rules S (set of pairs) with actions a (function on S): one chain per left character
-Layout(S, a, rb) ==
-  LET keys  == SortInts({LeftKey(p[1]) : p \in S})
-      lefts == [j \in 1..Len(keys) |-> IF keys[j] = -1 THEN NonChar ELSE keys[j]]
-      group(l) == LET rs == SortInts({p[2] : p \in {q \in S : q[1] = l}})
-                  IN [j \in 1..Len(rs) |-> <<IF j = Len(rs) THEN -1 ELSE 0, rs[j], a[<<l, rs[j]>>][1], a[<<l, rs[j]>>][2]>>]
-      RECURSIVE Build(_, _, _, _)
-      Build(j, ins, ep, lbe) ==
-        IF j > Len(lefts) THEN [ins |-> ins, ep |-> ep, lbe |-> lbe]
-        ELSE LET l == lefts[j] IN
-             IF l = NonChar THEN Build(j + 1, ins \o group(l), ep, Len(ins))
-             ELSE Build(j + 1, ins \o group(l), Append(ep, <<l, Len(ins)>>), lbe)
-      b == Build(1, <<>>, <<>>, -1)
-  IN [ins |-> [j \in 1..Len(b.ins) |-> IF b.ins[j][3] = KernOp THEN <<b.ins[j][1], b.ins[j][2], KernOp, j>> ELSE b.ins[j]],
-      ep |-> b.ep, packed |-> 0, lbe |-> b.lbe, rbc |-> rb]
-
 Words == UNION {[1..k -> Letters] : k \in 1..MaxLen}
 
 -----------------------------------------------------------------------------
-Init == /\ \E S \in SUBSET Pairs :
-             /\ Cardinality(S) <= MaxRules
-             /\ \E a \in [S -> Acts] : \E rb \in {NonChar, MaxLetter} : prog = Layout(S, a, rb)
+Init == /\ \E S \in RuleSets : \E a \in [S -> Acts] : \E rb \in {NonChar, MaxLetter} : prog = Layout(S, a, rb)
         /\ word \in Words
-        /\ nl \in {0, 1}
+        \* without a left boundary program TeX's two entries coincide (main_k = non_address);
+        \* RefinesCursor then checks the implementation for both settings in the same state
+        /\ nl \in (IF prog.lbe >= 0 THEN {0, 1} ELSE {0})
         /\ lp = LoopPairs(prog)
-        /\ st = TeXInit(prog, word, nl, prog.rbc)
+        /\ st = ToLookup(prog, TeXInit(prog, word, nl, prog.rbc))
         /\ n = 0
         /\ hit = FALSE
 
 \* the two-character configuration of one pair: nothing but the pair itself can be looked up
 IsPairConfig == /\ prog.rbc = NonChar
                 /\ \/ Len(word) = 2 /\ nl = 1
+                   \/ Len(word) = 2 /\ prog.lbe < 0
                    \/ Len(word) = 1 /\ nl = 0 /\ prog.lbe >= 0
 ThePair == IF Len(word) = 2 THEN <<word[1], word[2]>> ELSE <<NonChar, word[1]>>
 
@@ -93,7 +71,7 @@ AtLoopingPair == st.pc = "main_lig_loop" /\ <<st.cl, st.cr>> \in lp
 
 StepCursor == /\ st.pc \notin {"done", "diverges"} /\ n < Bound
               /\ ~(AtLoopingPair /\ StopAtHit /\ ~IsPairConfig)
-              /\ st' = TeXStep(prog, st) /\ n' = n + 1 /\ hit' = (hit \/ AtLoopingPair)
+              /\ st' = ToLookup(prog, TeXStep(prog, st)) /\ n' = n + 1 /\ hit' = (hit \/ AtLoopingPair)
               /\ UNCHANGED <<prog, word, nl, lp>>
 
 StopDiverging == /\ st.pc \notin {"done", "diverges"} /\ n < Bound
@@ -109,9 +87,10 @@ Spelling == Spelled(st) = word
 
 RefinesCursor ==
   st.pc = "done" =>
-    LET im == ImplRun(prog, word, nl, NonChar) IN
-    /\ im.fin
-    /\ IF CheckFlags THEN im.out = st.out ELSE SameItems(st.out, im.out)
+    \A nlx \in (IF prog.lbe >= 0 THEN {nl} ELSE {0, 1}) :
+      LET im == ImplRun(prog, word, nlx, NonChar) IN
+      /\ im.fin
+      /\ IF CheckFlags THEN im.out = st.out ELSE SameItems(st.out, im.out)
 
 NoHitIfDone == st.pc = "done" => ~hit
 HitIfBound  == (n = Bound /\ st.pc # "done") => hit
